@@ -285,3 +285,155 @@ def history3(ctx, pool, p1, p2, cplx):
             if _history(ctx, pool, cplx, [p1, p2], q, target):
                 n += 1
     ctx.notes.append('%d admissible histories' % (n + 1))
+
+
+# ------------------------------------------------------------------ routines
+ROUTINES = ['sle.als', 'sle.mals', 'evp.als nev=1', 'evp.als nev=2', 'evp.power_method', 'ode.explicit_euler', 'ode.implicit_euler', 'ode.trapezoidal_rule',
+            'ode.hod', 'ode.hod previous_value', 'ode.tdvp1site', 'ode.tdvp2site', 'ode.krylov', 'ode.strang_splitting', 'tdmd_exact', 'tdmd_standard',
+            'tedmd.amuset_hosvd batch', 'regression.arr', 'regression.mandy_cm']
+
+
+def _order_eig_policy(ctx):
+    """FreePolicy + in-place model + eigenvalues with a fixed strict order (no path explosion in argsort)"""
+    from symtt import lapack, state
+    from symtt.scalar import Sc
+    from .common import _OW
+    if 'tab' not in _OW:
+        _OW['tab'] = lapack.calibrate_overwrite()
+
+    class P(lapack.FreePolicy):
+        real_spectrum = True
+        assume_sorted_spectrum = True
+        positive_spectrum = True
+
+        def eig(self, A, B=None, hermitian=False, k=None):
+            lam, V = lapack.FreePolicy.eig(self, A, B, hermitian, k)
+            n = lam.shape[0]
+            for j in range(n - 1):
+                state.assume(Sc.of(lam.plain()[j]) > Sc.of(lam.plain()[j + 1]) + 1)
+            state.assume(Sc.of(lam.plain()[n - 1]) > 2)
+            return lam, V
+    return P(model_overwrite=True, overwrite_table=_OW['tab'])
+
+
+@scenario('C06', 'routines', lambda tier: [{'routine': r} for r in ROUTINES])
+def routines(ctx, routine):
+    """one call of a solver / integrator / data-driven routine, then one in-place operation on each returned train: every argument and every other
+    returned train keeps value and metadata; every returned train is consistent"""
+    TT = ctx.R.TT
+    R = ctx.R
+    if ctx.mode == 'tv':
+        from symtt.core import SkipTV
+        raise SkipTV()
+    dims = [2, 2]
+    sA = {'rows': dims, 'cols': dims, 'ranks': [1, 1, 1]}
+    sx = {'rows': dims, 'cols': [1, 1], 'ranks': [1, 2, 1]}
+
+    def body():
+        from .C15 import _funcs
+        if ctx.sym:
+            from symtt import state, lapack
+            ex = state.S.explorer
+            state.reset(); state.S.explorer = ex
+            for a in ctx.assumptions:
+                ex.assume(a)
+            lapack.set_policy(_order_eig_policy(ctx))
+        C = TT(mk_cores(ctx, 'A', sA, False))
+        A = C + C.transpose()
+        x = TT(mk_cores(ctx, 'x', sx, False))
+        y = TT(mk_cores(ctx, 'y', sx, False))
+        args = {'A': A, 'x': x, 'y': y}
+        h = ctx.scalar('h', lo=(0,))
+        outs = []
+        if routine == 'sle.als':
+            outs = [R.sle.als(A, x, y, repeats=1)]
+        elif routine == 'sle.mals':
+            outs = [R.sle.mals(A, x, y, repeats=1, threshold=0)]
+        elif routine == 'evp.als nev=1':
+            ev, et, _ = R.evp.als(A, x, number_ev=1, repeats=1, sigma=1)
+            outs = [et]
+        elif routine == 'evp.als nev=2':
+            ev, et, _ = R.evp.als(A, x, number_ev=2, repeats=1, sigma=1)
+            outs = list(et)
+        elif routine == 'evp.power_method':
+            ev, et = R.evp.power_method(A, x, repeats=1, sigma=ctx.scalar('sigma'))
+            outs = [et]
+        elif routine == 'ode.explicit_euler':
+            outs = R.ode.explicit_euler(A, x, [h, h], threshold=0, max_rank=50, normalize=0, progress=False)
+        elif routine == 'ode.implicit_euler':
+            outs = R.ode.implicit_euler(A, x, y, [h], threshold=0, normalize=0, progress=False)
+        elif routine == 'ode.trapezoidal_rule':
+            outs = R.ode.trapezoidal_rule(A, x, y, [h], threshold=0, normalize=0, progress=False)
+        elif routine == 'ode.hod':
+            outs = R.ode.hod(A, x, h, 2, order=2, threshold=0, max_rank=50, normalize=0, progress=False)
+        elif routine == 'ode.hod previous_value':
+            outs = R.ode.hod(A, x, h, 2, order=2, previous_value=y, threshold=0, max_rank=50, normalize=0, progress=False)
+        elif routine == 'ode.tdvp1site':
+            outs = R.ode.tdvp1site(A, x, h, 1)
+        elif routine == 'ode.tdvp2site':
+            outs = R.ode.tdvp2site(A, x, h, 1, threshold=0, max_rank=50)
+        elif routine == 'ode.krylov':
+            outs = [R.ode.krylov(A, x, 1, h, threshold=0, max_rank=50)]
+        elif routine == 'ode.strang_splitting':
+            S_ = ctx.input('S', (2, 2), False); L_ = ctx.input('L', (2, 2), False); M_ = ctx.input('M', (2, 2), False)
+            outs = R.ode.strang_splitting(S_, L_, ctx.lift(np.eye(2)), M_, x, h, 1, threshold=0, max_rank=50, normalize=0)
+            args = {'x': x}
+        elif routine in ('tdmd_exact', 'tdmd_standard'):
+            sxx = {'rows': [2, 2], 'cols': [1, 1], 'ranks': [1, 2, 1]}
+            ev, modes = getattr(R.tdmd, routine)(x, y)
+            outs = [modes]
+            args = {'x': x, 'y': y}
+        elif routine == 'tedmd.amuset_hosvd batch':
+            data = ctx.input('data', (1, 3), False)
+            phi = [_funcs(ctx, R.transform, 1, ['const', 'id'])]
+            ev, et = R.tedmd.amuset_hosvd(data, [np.array([0, 1]), np.array([0, 2])], [np.array([1, 2]), np.array([1, 0])], phi, threshold=0)
+            outs = list(et)
+            args = {}
+        elif routine == 'regression.arr':
+            data = ctx.input('data', (1, 2), False)
+            yd = ctx.input('ydata', (1, 2), False)
+            phi = [_funcs(ctx, R.transform, 1, ['const', 'id']), _funcs(ctx, R.transform, 1, ['id', 'mono2'])]
+            outs = R.regression.arr(data, yd, phi, x, repeats=1, progress=False)
+            args = {'x': x}
+        elif routine == 'regression.mandy_cm':
+            data = ctx.input('data', (1, 2), False)
+            yd = ctx.input('ydata', (1, 2), False)
+            outs = [R.regression.mandy_cm(data, yd, [lambda t: t, lambda t: t * t], threshold=0.0)]
+            args = {}
+        else:
+            raise KeyError(routine)
+        lives = []
+        for k_, o in args.items():
+            lives.append(Live(k_, o, ctx))
+        # arguments unchanged by the call itself
+        ref = {'A': None}
+        results = []
+        for j, o in enumerate(outs):
+            if isinstance(o, TT):
+                if any(o is l.obj for l in lives):
+                    continue            # handed back by identity (e.g. the initial value heading a trajectory)
+                if not _consistent(o):
+                    ctx.fail('%s: returned train #%d has inconsistent metadata' % (routine, j), repr((_meta(o), [tuple(c.shape) for c in o.cores])))
+                    continue
+                results.append(Live('result%d' % j, o, ctx))
+        lives += results
+        # value of the arguments after the call == value of fresh copies of the same symbolic inputs
+        A0 = TT(mk_cores(ctx, 'A', sA, False)); A0 = A0 + A0.transpose()
+        fresh = {'A': A0, 'x': TT(mk_cores(ctx, 'x', sx, False)), 'y': TT(mk_cores(ctx, 'y', sx, False))}
+        for k_, o in args.items():
+            if _consistent(o) and _meta(o) == _meta(fresh[k_]):
+                ctx.eq('%s: argument %s unchanged by the call' % (routine, k_), _open_full(ctx, o), _open_full(ctx, fresh[k_]))
+            else:
+                ctx.fail('%s: metadata of argument %s changed by the call' % (routine, k_), '%s -> %s' % (_meta(fresh[k_]), _meta(o)))
+        # one in-place operation on each returned train
+        for rl in results:
+            for qname in ('ortho_left()', 'ortho_right()'):
+                inpl = _inplace_ops(ctx)
+                ok, _ = _applicable(inpl[qname], rl.obj, {})
+                if ok:
+                    _check_all(ctx, '[%s ; %s on %s]' % (routine, qname, rl.name), lives, [rl.obj])
+                    rl.value = _open_full(ctx, rl.obj)
+                    rl.meta = _meta(rl.obj)
+        return len(results)
+    res = ctx.explore('routine ' + routine, body, cap=128)
+    ctx.check('at least one feasible path', len(res) >= 1)
